@@ -700,7 +700,12 @@ fn session_pure_op(ctx: &mut Ctx, sc: &Session, i: usize, op: &SOp, pool_v: &mut
                 ctx.dg.f64(a.temperature.to_reduced());
                 ctx.out.max("dev.nvu.rel", d);
                 ctx.out.count("oracle.compared", 1);
-                if !(d <= TOL_STATE) {
+                // the returned state must have the specified internal energy, whatever the guess
+                let du = ((a.molar_internal_energy(Contributions::Total) - u) / (quantity::RGAS * a.temperature)).into_value().abs();
+                ctx.out.max("dev.nvu.spec", du);
+                if !(du <= 1e-6) {
+                    ctx.out.violate("state-mismatch", "nvu:specification", format!("op {i} new_nvu of {} from T0 = {ti} T: returned T={} has u - u_spec = {du:e} RT", sys.name, a.temperature));
+                } else if !(d <= TOL_STATE) {
                     ctx.out.violate("state-mismatch", "nvu", format!("op {i} new_nvu of {}: T={} with initial temperature, T={} without", sys.name, a.temperature, b.temperature));
                 }
             }
@@ -730,8 +735,26 @@ fn session_pure_op(ctx: &mut Ctx, sc: &Session, i: usize, op: &SOp, pool_v: &mut
                 ctx.dg.f64(a.temperature.to_reduced());
                 ctx.out.max("dev.nph.rel", d);
                 ctx.out.count("oracle.compared", 1);
-                if !(d <= 1e-7) {
-                    ctx.out.violate("state-mismatch", "nph", format!("op {i} new_nph/nps of {}: (T,rho)=({},{}) guided vs ({},{})", sys.name, a.temperature, a.density, b.temperature, b.density));
+                // the returned state must meet the specification, whatever the guess
+                let rt = quantity::RGAS * a.temperature;
+                let dspec = if *entropy {
+                    ((a.molar_entropy(Contributions::Total) - s0.molar_entropy(Contributions::Total)) / quantity::RGAS).into_value().abs()
+                } else {
+                    ((a.molar_enthalpy(Contributions::Total) - s0.molar_enthalpy(Contributions::Total)) / rt).into_value().abs()
+                }
+                .max(deviation(a.pressure(Contributions::Total).to_reduced(), p.to_reduced(), 1e-300));
+                ctx.out.max("dev.nph.spec", dspec);
+                if !(dspec <= 1e-6) {
+                    ctx.out.violate("state-mismatch", "nph:specification", format!("op {i} new_nph/nps of {} (entropy {entropy}) from T0 = {ti} T: returned (T,rho)=({},{}) misses the specification by {dspec:e}", sys.name, a.temperature, a.density));
+                } else if !(d <= 1e-7) {
+                    if a.temperature.to_reduced() < 0.45 * sys.tc {
+                        // another exact solution of the same (p, s) or (p, h) on the model's unphysical
+                        // low-temperature branch (CO2, PC-SAFT: 60 K, 5.6 kmol/m3, dp/drho > 0, p and s equal to
+                        // 1e-14): the specification is not unique there, the guess selects the root
+                        ctx.out.count("window.nph_second_root_below_0.45Tc", 1);
+                    } else {
+                        ctx.out.violate("state-mismatch", "nph", format!("op {i} new_nph/nps of {} (entropy {entropy}, T0 = {ti} T): (T,rho)=({},{}) guided vs ({},{}); both meet the specification", sys.name, a.temperature, a.density, b.temperature, b.density));
+                    }
                 }
             }
         }
@@ -1480,8 +1503,9 @@ fn gen_session(rng: &mut Rng, tier: Tier, no_faults: bool) -> Session {
                     guess: rng.below(64),
                     liquid: rng.chance(0.5),
                 },
-                8 => SOp::Nvu { tf: rng.uniform(0.6, 1.4), rf: rng.uniform(0.05, 2.0), ti: rng.uniform(0.5, 2.0) },
-                9..=10 => SOp::Nph { tf: rng.uniform(0.7, 1.5), ti: rng.uniform(0.6, 1.6), entropy: rng.chance(0.5) },
+                // (initial temperatures within the property's factor 3 of the solution, log-uniform)
+                8 => SOp::Nvu { tf: rng.uniform(0.6, 1.4), rf: rng.uniform(0.05, 2.0), ti: q9((rng.uniform(-1.0, 1.0) * 1.08f64).exp()) },
+                9..=10 => SOp::Nph { tf: rng.uniform(0.7, 1.5), ti: q9((rng.uniform(-1.0, 1.0) * 1.08f64).exp()), entropy: rng.chance(0.5) },
                 _ => SOp::Crit { ti: rng.uniform(0.8, 1.5) },
             });
         }
